@@ -189,6 +189,13 @@ TitlesDot == { C0(<<"/">>), C0(<<".", "a">>), CT(<<".", "a">>), C0(<<"a", "/", "
 \* colliding with a good title
 TitlesClash == { C0(<<"/", "a">>), C0(<<"a", "/", ".", "/", "b">>) }
 TitlesAll == TitlesGood \cup TitlesDot \cup TitlesClash
+\* quick: fewer titles of each kind
+TitlesQ == { C0(<<"a">>), C0(<<"a", "b", "c">>), C0(<<"a", "/", "b">>), C0(<<"a", ":", "b">>), C0(<<"?">>), C0(<<"\"", "a">>),
+             C0(<<"a", "/", "/", "b">>), C0(<<"a", ".", ".", "b">>), C0(<<"a", " ", "b">>), C0(<<"a", "b", "/", "c">>),
+             CT(<<"a">>), CT(<<"a", "/", "b">>), CT(<<"a", ":", "b">>), CT(<<".", ".", "a">>), CM(<<"a", "/", "b">>),
+             Red0(<<"r">>, <<"a">>),
+             C0(<<"/">>), C0(<<".", "a">>), CT(<<".", "a">>), C0(<<"a", "/">>),
+             C0(<<"/", "a">>), C0(<<"a", "/", ".", "/", "b">>) }
 WinNo == {FALSE}
 WinBoth == BOOLEAN
 
